@@ -272,6 +272,11 @@ unsigned char *ares_memmem(const unsigned char *big, size_t big_len,
 ares_bool_t ares_memeq(const unsigned char *ptr, const unsigned char *val,
                        size_t len)
 {
+  /* memcmp() must not be handed a NULL pointer, not even with a length of 0
+   * (e.g. an empty section of ares_buf_split() has no data pointer) */
+  if (len == 0) {
+    return ARES_TRUE;
+  }
   return memcmp(ptr, val, len) == 0 ? ARES_TRUE : ARES_FALSE;
 }
 
